@@ -31,7 +31,7 @@ ASSUMPTIONS = [
 ]
 BUDGET = {
     "quick": {"shards": 16, "examples": 8, "wall": 110},
-    "thorough": {"shards": 16, "examples": 250, "wall": 1200},
+    "thorough": {"shards": 16, "examples": 2500, "wall": 900},
 }
 
 
